@@ -18,7 +18,7 @@ import (
 	"verif/engine/zn"
 )
 
-func c12Num(n int) zn.Expr { return zn.Num{Lit: fmt.Sprint(n)} }
+func c12Num(n int) zn.Expr    { return zn.Num{Lit: fmt.Sprint(n)} }
 func c12Str(s string) zn.Expr { return zn.Str{Val: s} }
 
 var c12Keys = []string{"乙", "甲", "丙"}
@@ -211,7 +211,7 @@ func init() {
 	mc.Register(&mc.Check{
 		ID:    "C12",
 		Level: "model_checking",
-		Rule: "E2: breadth-first search over operation histories on a list L and a dictionary D (plus one copy of each) from 3 initial states (non-empty, empty, literal with duplicate keys); list operations: guarded write at positions {0,1,2,len,len+1}, 前增 后增 左移 右移 交换 (in and out of range) 合并 (also with the receiver itself among the arguments), setters 首项 末项, copies; dictionary operations over keys 乙 甲 丙 (deliberately unsorted): #k write, 写入 移除 读取, numeric key, two whole-number keys beyond 2^63, copies; a two-name loop over L that appends its position variable to the copy M; values cycle through 0..2 so the space closes under the history bound. Every history of >= 3 operations is also run with the battery only at its end (an observation may itself refresh hidden state). After EVERY operation the full observation battery runs on the real interpreter (fresh run of the whole history) and the reference (slice / key list + map): structural value, display text, length, 首项 末项 逆序 逆序∘逆序 包含, guarded reads at 0,1,2,len,len+1 (out of range => error and unchanged), iteration order with indices, 所有索引 所有值, keyed reads of present and absent keys, generated JSON (of the dictionary itself and of it as an item of a list, of a list in a list and under a key).",
+		Rule:  "E2: breadth-first search over operation histories on a list L and a dictionary D (plus one copy of each) from 3 initial states (non-empty, empty, literal with duplicate keys); list operations: guarded write at positions {0,1,2,len,len+1}, 前增 后增 左移 右移 交换 (in and out of range) 合并 (also with the receiver itself among the arguments), setters 首项 末项, copies; dictionary operations over keys 乙 甲 丙 (deliberately unsorted): #k write, 写入 移除 读取, numeric key, two whole-number keys beyond 2^63, copies; a two-name loop over L that appends its position variable to the copy M; values cycle through 0..2 so the space closes under the history bound. Every history of >= 3 operations is also run with the battery only at its end (an observation may itself refresh hidden state). After EVERY operation the full observation battery runs on the real interpreter (fresh run of the whole history) and the reference (slice / key list + map): structural value, display text, length, 首项 末项 逆序 逆序∘逆序 包含, guarded reads at 0,1,2,len,len+1 (out of range => error and unchanged), iteration order with indices, 所有索引 所有值, keyed reads of present and absent keys, generated JSON (of the dictionary itself and of it as an item of a list, of a list in a list and under a key).",
 		Assumptions: []string{
 			"fractional indices and the numeric convention of 寻找 / 新增 are not asserted (statement leaves them open)",
 			"JSON text of the reference uses Go's shortest float formatting and member order = stored key order",
